@@ -2,8 +2,10 @@
 """Copies confirmed seeded regressions from /tmp/seed-<ID>-out/<n>/ into /verif/seeded/<ID>-<n>/ with a meta.json
 that records what the change breaks, what it needs to manifest and what was run here to confirm / detect it."""
 import json, os, shutil, sys, glob
+PFX = os.environ.get('SEEDPFX', 'seed')
+OFF = int(os.environ.get('SEEDOFF', '0'))
 for pid in sys.argv[1:]:
-    for d in sorted(glob.glob('/tmp/seed-%s-out/[0-9]' % pid)):
+    for d in sorted(glob.glob('/tmp/%s-%s-out/[0-9]' % (PFX, pid))):
         n = os.path.basename(d)
         rf = d + '.result.json'
         if not os.path.exists(rf):
@@ -13,7 +15,7 @@ for pid in sys.argv[1:]:
         if not confirmed:
             print("NOT CONFIRMED", pid, n, {k: r.get(k) for k in ('demo_passes_without_patch', 'demo_fails_with_patch', 'existing_tests_pass', 'builds')})
             continue
-        dst = '/verif/seeded/%s-%s' % (pid, n)
+        dst = '/verif/seeded/%s-%d' % (pid, int(n) + OFF)
         os.makedirs(dst, exist_ok=True)
         am = json.load(open(os.path.join(d, 'meta.json')))
         for f in os.listdir(d):
